@@ -86,6 +86,12 @@ pub fn dispatch(name: &str, args: &[&str]) -> Option<String> {
                     let h = humphrey::handlers::serve_dir::<()>(dir);
                     show(h(req, Arc::new(()), &route))
                 }
+                // library serve_file: one fixed file, whatever is asked; the "route" argument carries the path below the base
+                "serve_file" => {
+                    let path: &'static str = Box::leak(format!("{}/{}", base, route).into_boxed_str());
+                    let h = humphrey::handlers::serve_file::<()>(path);
+                    show(h(req, Arc::new(())))
+                }
                 "serve_as_file_path" => {
                     let h = humphrey::handlers::serve_as_file_path::<()>(dir);
                     show(h(req, Arc::new(())))
